@@ -205,6 +205,11 @@ func (e *Environment) AddScope() {
 	e.local = append(e.local, locals)
 }
 
+// ScopeDepth returns the number of scopes which are currently open.
+func (e *Environment) ScopeDepth() int {
+	return len(e.local)
+}
+
 // RemoveScope removes the storage for the most recently added store.
 func (e *Environment) RemoveScope() error {
 
